@@ -40,7 +40,7 @@ EXPLANATION = ("Exhaustive sub-space (both tiers): every labelled graph up to is
                "anchor, the VF2 enumerations and the WL-1 colours after 0,1,2,10 rounds are compared with the model and with brute force.  "
                "Everything else is seeded random / "
                "corpus sampling.  Theorems (coq/props/C11.v, all closed under the global context): C11_vocabulary, C11_aut_count, C11_aut_group, "
-               "C11_vf2_contract, C11_vf2_contract_items, C11_orbits_exact, C11_orbits_partition, C11_components, C11_anchors, C11_object_state, C11_wl_never_splits, C11_wfb_sound, "
+               "C11_vf2_contract, C11_vf2_contract_items, C11_orbits_exact, C11_orbits_partition, C11_components, C11_anchors, C11_object_state, C11_wl_never_splits, C11_wl_partition, C11_wfb_sound, "
                "C11_dedup_sublist, C11_dedup_first_of_class, C11_partial_prune, C11_partial_prune_hosts, C11_prune_complete, C11_rep_ok, C11_prune_complete_aut, C11_prune_first_of_class, C11_prune_same_results.")
 TRUSTED_BASE = [
     "Coq 8.16.1 kernel + vm_compute (no native_compute)",
@@ -143,14 +143,20 @@ def _aut_obs(G, nk=None):
     Automorphism and to the second estimate (None = the defaults element, charge)"""
     from synkit.Graph.Matcher.automorphism import Automorphism
     from synkit.Graph.Matcher.auto_est import AutoEst
-    A = Automorphism(G) if nk is None else Automorphism(G, node_attr_keys=list(nk), edge_attr_keys=["order"])
+    if nk is None:
+        A = Automorphism(G)
+    elif nk[0] == "charge":
+        A = Automorphism(G, list(nk), ("order",))                    # positional, tuple instead of list
+    else:
+        A = Automorphism(G, node_attr_keys=list(nk), edge_attr_keys=["order"])
     anchor = A.anchor_component
     out = [A.n_automorphisms, S([S(sorted(o)) for o in A.orbits]), [S(sorted(c)) for c in A.components],
            [] if anchor is None else [S(sorted(anchor))]]
     for attrs in (WL_ATTRS4, None if nk is None else list(nk)):
         rounds = []
         for k in WL_ITERS:
-            est = AutoEst(G, node_attrs=attrs, edge_attrs=["order"], max_iter=k).fit()
+            est = (AutoEst(G, attrs, ["order"], k) if (nk is not None and nk[0] == "charge")      # all positional
+                   else AutoEst(G, node_attrs=attrs, edge_attrs=["order"], max_iter=k)).fit()
             col = est.node_colors
             rounds.append([col[n] for n in G.nodes()])
         out.append([rounds, [sorted(o) for o in est.orbits], sorted(est.anchor_component)])
@@ -892,7 +898,8 @@ def _oracle_dedup(case):
     adj = _adj(g, _lab_e)
     auts = brute_auts(nodes, lab, adj)
     ms = [dict((p, h) for p, h in m) for m in case["ms"]]
-    out = DM.deduplicate_matches_by_automorphisms(ms, DM.graph_automorphisms(P))
+    out = DM.deduplicate_matches_by_automorphisms(automorphisms=iter(DM.graph_automorphisms(graph=P, ignore_node_attrs=["atom_map"])),
+                                                  matches=iter(ms))          # keywords, iterators, list instead of tuple
     kept = [frozenset(m.items()) for m in out]
     images = set()
     for m in out:
